@@ -48,6 +48,7 @@ RULES = {
 def run(ck, m):
     _run(ck, m)
     watchers_monotone(ck, m)
+    queue_position_decided_by_the_listing(ck, m)
     lister_covers_records(ck, m)
     from nl import alias as _alias
     from props import C02 as _C02
@@ -649,3 +650,39 @@ def decision_table(ck, m, b):
           'next_version decision table differs in %d of 16 combinations: %s — a resolution that builds on the wrong version is refused by the '
           'store (or stored below the current version), the key keeps the other value while the record says resolved' % (len(diff), '; '.join(diff[:4])),
           '%s:%s' % (b.file, b.line))
+
+
+def queue_position_decided_by_the_listing(ck, m):
+    """C13.n — see RULES"""
+    from nl import locks
+    from props.C02 import resolver_fn
+    P = m.prog
+    ck.rule('C13.n', 'a write to a key in conflict queues behind the newest record of that key, whatever the state of that record: in the conflict '
+                     'resolver the branch that picks "behind the last listed conflict" or "first conflict of the key" is decided by the listing alone '
+                     '(list_conflicts_keys().last()) — a further test (the last record is "already answered") sends a queued write down the '
+                     'first-conflict path, whose notice carries the stored version, i.e. the in-conflict marker: the arbiter echoes it and the key '
+                     'can never be released')
+    rb = resolver_fn(m)
+    fam = [rb] + [P.bodies[k] for k in P.bodies if k.startswith(rb.id + '::{closure')]
+    n, bad = 0, []
+    for b in fam:
+        lasts = {bi for bi, t in b.calls() if callee_decl(t).split('::')[-1] in ('last', 'last_mut', 'pop') and ('slice' in callee_decl(t) or 'Vec' in callee_decl(t))}
+        if not lasts:
+            continue
+        for sw in b.reachable():
+            t = b.term(sw)
+            if t['k'] != 'switch' or b.blocks[sw].get('cleanup'):
+                continue
+            calls_, _params = locks.backward_slice(b, t['o'])
+            if not (calls_ & lasts):
+                continue
+            n += 1
+            for c in sorted(calls_):
+                cb_ = P.bodies.get(callee(b.term(c)))
+                if cb_ is not None and not is_log(b.term(c)) and not any(x in cb_.id for x in ('list_conflicts_keys', 'list_keys')):
+                    bad.append('%s (%s)' % (short(cb_.id), b.loc(c)))
+    ck.ob('C13.n', short(rb.id), 'queue-position-decided-by-the-listing', n > 0 and not bad,
+          'the %d branch(es) on the newest listed conflict depend on the listing alone' % n if n > 0 and not bad else
+          'the choice between "queue behind the newest conflict" and "first conflict" also depends on %s' % sorted(set(bad))[:4],
+          '%s:%s' % (rb.file, rb.line))
+    ck.floor('C13.n', n, 1, 'branches on the newest listed conflict in the resolver')
